@@ -49,6 +49,13 @@ Edge == <<                                        \* shapes on the three edges o
   G("LineString", <<<<2, 72000>>, <<6, 72000>>>>),
   G("Polygon", <<Rect(2, 72000, 6, 72032)>>),
   G("LineString", <<<<0, 0>>, <<1, 32>>, <<2, 16>>>>),   \* with buffers (1, 0): buffer_geometry raises KeyError (found by the random driver)
+  \* lines that go BACK in time at an interior vertex (legal: only first time <= last time is required): Z, hook, closed
+  \* loop with equal first and last time, and a member of a multi line.  The original is the curve IN THE ORDER GIVEN;
+  \* the probe grid has points on the backward segments (e.g. (5,24), (4,32), (3,40) on the middle stroke of the Z).
+  G("LineString", <<<<0, 16>>, <<6, 16>>, <<2, 48>>, <<8, 48>>>>),
+  G("LineString", <<<<2, 0>>, <<8, 32>>, <<4, 64>>>>),
+  G("LineString", <<<<2, 16>>, <<6, 48>>, <<8, 16>>, <<2, 16>>>>),
+  G("MultiLineString", <<<<<<0, 0>>, <<4, 32>>, <<2, 64>>, <<6, 64>>>>, <<<<8, 16>>, <<10, 48>>>>>>),
   \* events late in a long recording: Late sub-ticks are >= 6.25e6 s at every time unit, beyond MAX_FREQUENCY = 5e6 as a number.
   \* Time has no upper edge, so nothing may be clamped there.  (Closed-form kinds only: their oracle needs no products.)
   G("TimeStamp", Late),
@@ -141,6 +148,13 @@ LawWitness == LawAt => LET inp == {p \in PP : OnOrIn(GG, p)} IN \A b \in AllB :
           LET r == TargetRoundScaled(GG, b) IN CapD * t[1] <= r[1] /\ CapD * t[2] <= r[2] /\ r[3] <= CapD * t[3] /\ r[4] <= CapD * t[4]
 \* every vertex of the original is among the probes that must be contained (so Contains is never vacuous)
 LawProbesCoverVertices == LawAt => LET pp == PP IN \A v \in (IF GG.type \in TimeOnlyKinds THEN {} ELSE Vertices(GG)) : v \in pp /\ OnOrIn(GG, v)
+\* every segment of a line longer than one grid step carries a probe strictly between its end points
+LawProbesOnSegments == LawAt => (GG.type \in RoundKinds =>
+    LET paths == IF GG.type = "LineString" THEN <<GG.coordinates>> ELSE GG.coordinates  pp == PP IN
+    \A q \in DOMAIN paths : \A k \in 1..(Len(paths[q]) - 1) :
+        LET a == paths[q][k]  b == paths[q][k + 1] IN
+        (Abs(a[1] - b[1]) >= 2 /\ Abs(a[2] - b[2]) <= 128 /\ Abs(a[2] - b[2]) % (8 * Abs(a[1] - b[1])) = 0) =>
+            \E p \in pp : p # a /\ p # b /\ OnSeg(a, b, p))
 LawSomeProbeOutside == LawAt => (GG.type \notin TimeOnlyKinds => \E p \in PP : ~OnOrIn(GG, p))
 \* limb helpers agree with integer arithmetic
 LawLimbs == (LawAt /\ c.gi = 1) => \A a \in {0, 1, 5, FMAXS} : \A b \in {0, 1, 4, 5, 6, FMAXS} :
